@@ -181,7 +181,7 @@ theorem assignDest_effect {d : ArgDef} {st st' : ArgSt} {v : Word} (e : assignDe
     match d.kind with
     | .flag => st'.dest = .flag d.flagValue ∧ st'.hasValueSet = true
     | .int => st'.dest = .int (castOr0 v) ∧ st'.hasValueSet = true
-    | .str => st'.dest = .str v ∧ st'.hasValueSet = true
+    | .str => st'.dest = .str (d.fmt.apply v) ∧ st'.hasValueSet = true
     | .level => st'.dest = .level (levelStep (levelOf st.dest) v) ∧
         st'.hasValueSet = (st.hasValueSet || !v.isEmpty) ∧ st'.incremented = (st.incremented || v.isEmpty)
     | .vecInt => st'.hasValueSet = st.hasValueSet ∧
